@@ -20,7 +20,7 @@
                      C17_guard_holds_from_the_package_dir_or_after_repair)
    That rename(2) rebinds the destination in one step is the semantics of
    [Rename] in the model, not a theorem. *)
-From Coq Require Import String Ascii List Bool Arith.
+From Coq Require Import String Ascii List Bool Arith Permutation.
 From Shoot Require Import Model.Fs Proofs.FsProofs.
 Import ListNotations.
 Local Open Scope string_scope.
@@ -211,6 +211,25 @@ Theorem C17_crash_points : forall (l p : list op) k,
 Proof. intros l p k. split; [apply prefix_of_firstn|apply prefix_is_firstn]. Qed.
 Print Assumptions C17_crash_points.
 
+(* ---- main ranges over a Go map: the order in which the outputs are written does
+   not influence what the directory shows after the run *)
+Theorem C17_output_order_is_irrelevant : forall c init outs outs',
+  Permutation outs outs' -> good c init outs -> good c init outs' ->
+  forall n, visible (exec init (plan c init outs)) n = visible (exec init (plan c init outs')) n.
+Proof. exact order_independent. Qed.
+Print Assumptions C17_output_order_is_irrelevant.
+
+(* ---- histories: what a killed run leaves behind (descriptors gone, directory as it
+   was at the crash point) is again a directory state meeting the guards, so all of
+   the above applies to the next run; leftover temporaries are ordinary foreign files
+   for it (C17_frame: they are never touched, hence never cleaned up) *)
+Theorem C17_crash_state_is_a_state : forall init p,
+  dir_wf init -> keys_nodup (dir init) ->
+  let s := reboot (exec init p) in
+  nofds s /\ dir_wf s /\ keys_nodup (dir s) /\ (forall n, visible s n = visible (exec init p) n).
+Proof. exact crash_state_is_a_state. Qed.
+Print Assumptions C17_crash_state_is_a_state.
+
 (* ------------------------------------------------------------ non-vacuity *)
 (* An all-in-one run of `shoot new -type=*` in a directory with an old
    all-in-one output that has a hard link, a superseded per-type output, a
@@ -266,6 +285,40 @@ Example C17_example_run :
   visible s ".a.shootnew.go_99" = Some "// Code gen" /\
   visible s ".a.shootnew.go_4242" = None.
 Proof. vm_compute. repeat split. Qed.
+
+(* the example run killed after the first chunk, then run again (new temporary name): the
+   guards hold in the crash state, the second run completes, the temporary of the first
+   run stays where it was *)
+Definition ex_crash : fs := reboot (exec ex_init (firstn 2 (plan ex_cfg ex_init [ex_out]))).
+Definition ex_out' : output :=
+  {| o_name := "a.shootnew.go"; o_tmp := ".a.shootnew.go_777"; o_chunks := [hdr "-type=*" ++ ex_nl ++ "new"] |}.
+Example C17_example_rerun_after_crash :
+  good ex_cfg ex_crash [ex_out'] /\
+  let s := exec ex_crash (plan ex_cfg ex_crash [ex_out']) in
+  visible s "a.shootnew.go" = Some (hdr "-type=*" ++ ex_nl ++ "new") /\
+  visible s ".a.shootnew.go_4242" = Some (hdr "-type=*" ++ ex_nl) /\
+  visible s ".a.shootnew.go_777" = None /\
+  visible s "a.shootnew.foo.go" = None /\
+  visible s "bak.orig" = Some (hdr "-type=*" ++ ex_nl ++ "old").
+Proof.
+  split.
+  - pose proof C17_example_good as [_ H2 _ _].
+    destruct (crash_state_is_a_state ex_init (firstn 2 (plan ex_cfg ex_init [ex_out])) H2) as (K1 & K2 & _).
+    { destruct (mk_init_wf [("a.go", 0, "package p");
+        ("a.shootnew.go", 1, hdr "-type=*" ++ ex_nl ++ "old");
+        ("bak.orig", 1, hdr "-type=*" ++ ex_nl ++ "old");
+        ("a.shootnew.foo.go", 2, hdr "-type=Foo" ++ ex_nl ++ "stale");
+        ("notes.shootnewish.go", 3, "package p" ++ ex_nl ++ "// hand written");
+        ("_keep.shootnew.go", 4, hdr "-getset -type=*" ++ ex_nl);
+        (".a.shootnew.go_99", 5, "// Code gen")]) as (_ & _ & K). exact K. }
+    split; [exact K1|exact K2| |].
+    + apply (shaped_okouts "new").
+      * repeat constructor. intros [].
+      * intros o [<-|[]]. split; [reflexivity|]. exists "777". repeat split. discriminate.
+      * intros t [<-|[]]. reflexivity.
+    + intros o [<-|[]]. reflexivity.
+  - vm_compute. repeat split.
+Qed.
 
 (* two outputs in one run (-type=A,B): separate files, Clean inactive *)
 Definition ex_outs2 : list output :=
